@@ -34,6 +34,8 @@ def init(wd):
     cli.add_subparser_call_variant(sub)
     cli.add_subparser_call_novel_orf(sub)
     cli.add_subparser_call_alt_translation(sub)
+    cli.add_subparser_generate_index(sub)
+    cli.add_subparser_update_index(sub)
     _PARSER = p
     logging.disable(logging.CRITICAL)
 
@@ -215,6 +217,19 @@ def do_e2e(c):
     try:
         g, a, p = G.write_world(c['world'], d)
         ref = ['--genome-fasta', g, '--annotation-gtf', a, '--proteome-fasta', p, '--quiet']
+        index_errors = []
+        if c.get('index'):
+            # an index directory holding several canonical pools: generateIndex with the first settings, updateIndex for
+            # each further one (registration order as given); the callers then get --index-dir instead of the files
+            idx = os.path.join(d, 'index')
+            for j, st in enumerate(c['index']['settings']):
+                if j == 0:
+                    e = _run(['generateIndex', '-g', g, '-a', a, '-p', p, '-o', idx, '--quiet'] + _cleave_args(st))
+                else:
+                    e = _run(['updateIndex', '--index-dir', idx, '--quiet'] + _cleave_args(st))
+                if e:
+                    index_errors.append('%s:%s' % ('generateIndex' if j == 0 else 'updateIndex', e['__exc__']))
+            ref = ['--index-dir', idx, '--quiet']
         gvfs = []
         for i, rows in enumerate(c.get('gvf_files', [])):
             gp = os.path.join(d, 'v%d.gvf' % i)
@@ -251,7 +266,7 @@ def do_e2e(c):
                 e = _run(argv)
                 one['alt'] = e if e else {'fasta': read_fasta(outp)}
             res.append(one)
-        return {'runs': res}
+        return {'runs': res, 'index_errors': index_errors}
     finally:
         shutil.rmtree(d, ignore_errors=True)
 
